@@ -217,7 +217,7 @@ struct Tol {
     band: f64,
     tie: f64,
 }
-const TOL64: Tol = Tol { eps: f64::EPSILON, unit: 1e-12, end: 1e-12, tiny_omega: 1e-6, abs: 1e-12, plane: 1e-10, exact_speed: 1e-9, close_speed: 1e-5, band: 1e-9, tie: 1e-12 };
+const TOL64: Tol = Tol { eps: f64::EPSILON, unit: 4e-15, end: 4e-15, tiny_omega: 1e-6, abs: 1e-12, plane: 1e-10, exact_speed: 1e-9, close_speed: 1e-5, band: 1e-9, tie: 1e-12 };
 /// f32: results are unit and hit the endpoints to a few f32 ulps; angles are known to eps32/Omega
 const TOL32: Tol = Tol { eps: f32::EPSILON as f64, unit: 2e-6, end: 2e-6, tiny_omega: 2e-3, abs: 2e-6, plane: 4e-6, exact_speed: 2e-5, close_speed: 3e-5, band: 1e-6, tie: 1e-6 };
 
